@@ -83,7 +83,7 @@ pub fn aggregate_corpus(items: &[&str], rich: bool) -> Vec<String> {
         out.push(format!("SELECT {} FROM t", it));
         out.push(format!("SELECT k, {} FROM t GROUP BY k", it));
     }
-    let pairs: Vec<(&str, &str)> = vec![("COUNT(v)", "SUM(v)"), ("MIN(s)", "MAX(s)"), ("COUNT(*)", "BOOL_AND(b)"), ("AVG(v)", "PERCENTILE(v, 0.5)"), ("MAX(ts)", "COUNT(DISTINCT v)")];
+    let pairs: Vec<(&str, &str)> = vec![("COUNT(v)", "SUM(v)"), ("MIN(s)", "MAX(s)"), ("COUNT(*)", "BOOL_AND(b)"), ("AVG(v)", "PERCENTILE(v, 0.5)"), ("MAX(ts)", "COUNT(DISTINCT v)"), ("COUNT(DISTINCT v)", "SUM(v)"), ("COUNT(DISTINCT v)", "AVG(r)"), ("COUNT(DISTINCT v)", "STDDEV(v)")];
     for (a, b) in &pairs {
         if items.contains(a) && items.contains(b) {
             out.push(format!("SELECT k, {}, {} FROM t GROUP BY k", a, b));
